@@ -7,23 +7,26 @@
 From Coq Require Import Reals ZArith List Bool String.
 From PyLib Require Import PyVal PyBuiltins Ideal.
 From Gen Require Import M_base M_Angle M_Epoch M_Interpolation M_Coordinates M_Earth M_Sun.
-From Proofs.C14 Require Import C14_tac C14_angle C14_eot C14_season C14_seasonB C14_season_all C14_poly C14_rise.
+From Proofs.C14 Require Import C14_tac C14_angle C14_jde C14_eot C14_season C14_seasonB C14_season_all C14_poly C14_rise.
 Import ListNotations.
 Open Scope R_scope.
 
+(* the module constant JDE2000 *)
+Theorem C14_jde2000 : g_JDE2000 Rops = epo 2451545.
+Proof. exact JDE2000_val. Qed.
+
 (* equation of time: E = 4 * red360 (L0 - 0.0057183 - alpha + dpsi cos eps) minutes, returned as
    (trunc E, (|E| mod 1) * 60) *)
-Theorem C14_eot_closed_form : forall jde J lon lat r eps alpha dec dpsi l0,
+Theorem C14_eot_closed_form : forall jde lon lat r eps alpha dec dpsi l0,
   -360 < l0 < 360 -> -360 < alpha < 360 ->
-  g_JDE2000 Rops = epo J ->
-  Angle___init__ Rops (VObj cAngle [VNone; VNone]) (VTuple [VFloat (L0poly ((jde - J) / 365250))]) (VDict []) = ang l0 ->
+  Angle___init__ Rops (VObj cAngle [VNone; VNone]) (VTuple [VFloat (L0poly ((jde - 2451545) / 365250))]) (VDict []) = ang l0 ->
   Sun_apparent_geocentric_position Rops (epo jde) (VBool true) = VTuple [ang lon; ang lat; VFloat r] ->
   f_true_obliquity Rops (VTuple [epo jde]) (VDict []) = ang eps ->
   f_ecliptical2equatorial Rops (ang lon) (ang lat) (ang eps) = VTuple [ang alpha; ang dec] ->
   f_nutation_longitude Rops (VTuple [epo jde]) (VDict []) = ang dpsi ->
   let E := red360 (eot_arg l0 alpha dpsi eps) * 4 in
   Sun_equation_of_time Rops (epo jde) = VTuple [VInt (Rtrunc E); VFloat (Rfmod (Rabs E) 1 * 60)].
-Proof. exact eot_closed_form. Qed.
+Proof. exact eot_closed_form_J2000. Qed.
 
 Theorem C14_eot_reduced : forall x, exists k : Z, red360 x = x - 360 * IZR k.
 Proof. exact red360_congr. Qed.
@@ -84,6 +87,7 @@ Theorem C14_sunrise_identity : forall h0 phi delta w0,
   sin_alt phi delta w0 = sin h0 /\ sin_alt phi delta (- w0) = sin h0.
 Proof. exact sunrise_identity. Qed.
 
+Redirect "C14_jde2000.assumptions" Print Assumptions C14_jde2000.
 Redirect "C14_eot_closed_form.assumptions" Print Assumptions C14_eot_closed_form.
 Redirect "C14_eot_reduced.assumptions" Print Assumptions C14_eot_reduced.
 Redirect "C14_eot_bound.assumptions" Print Assumptions C14_eot_bound.
